@@ -183,8 +183,12 @@ def metamorphic(ctx, st, S, P, atol, rng, w, dims, seed, n_hint=4, real=False):
         compare(ctx, st, base, r, "rigid-motion of the pattern", w)
     # 4. hints
     pat = {"positions": np.asarray(P.positions, float), "elements": list(P.elements)}
-    for hints in patterns.valid_hint_sets(pat, rng, k=n_hint)[1:]:
-        r, _, _, exc = run_search(S, P, atol, hints=hints, seed=seed)
+    for hi, hints in enumerate(patterns.valid_hint_sets(pat, rng, k=n_hint)[1:]):
+        # indices arrive as Python ints from the command line and as numpy integers from np.argmax & co.
+        as_given = tuple((np.int64(h) if (h is not None and hi % 2) else h) for h in hints)
+        r, _, _, exc = run_search(S, P, atol, hints=as_given, seed=seed)
+        if hi % 2:
+            st.count("hints_given_as_numpy_integers")
         cls = "%s%s%s" % ("a" if hints[0] is not None else "-", "b" if hints[1] is not None else "-", "o" if hints[2] is not None else "-")
         st.seen("hint_class", cls)
         if 0 in hints:
